@@ -279,9 +279,47 @@ def merge(results):
     return m
 
 
+def run_corpus(pid):
+    """replays hunt/<pid>/finding_*.py (curated reproduction scripts, exit 1 = violation present) against the repository"""
+    import glob
+    from concurrent.futures import ThreadPoolExecutor
+
+    files = sorted(glob.glob(os.path.join(HERE, "hunt", pid, "finding_*.py")))
+    env = dict(os.environ, PYTHONPATH=os.pathsep.join([REPO] + [p for p in os.environ.get("PYTHONPATH", "").split(os.pathsep) if p and p != REPO]),
+               PYTHONDONTWRITEBYTECODE="1", PYTHONHASHSEED="0")
+
+    def one(f):
+        try:
+            p = subprocess.run([sys.executable, "-W", "ignore", f], env=env, capture_output=True, text=True, timeout=240, cwd=tempfile.gettempdir())
+            return f, p.returncode, (p.stdout + p.stderr)[-600:]
+        except subprocess.TimeoutExpired:
+            return f, "timeout", ""
+
+    with ThreadPoolExecutor(max_workers=8) as ex:
+        return list(ex.map(one, files))
+
+
 def decide(a, mod, results, dead, t0, nsh):
     pid = a.prop
     m = merge(results)
+    corpus = run_corpus(pid) if not a.replay else []
+    for f, rc, tail in corpus:
+        name = os.path.basename(f)[:-3]
+        m["counters"]["corpus:scripts_run"] = m["counters"].get("corpus:scripts_run", 0) + 1
+        if rc == 1:
+            doc = open(f).read()
+            mm = re.search(r'"""(.*?)"""', doc, re.S)
+            what = (mm.group(1).strip().replace("\n", " ") if mm else name)[:300]
+            m["violations"].setdefault(f"{pid}/corpus/{name}", {"count": 0, "what": what, "first": []})
+            v = m["violations"][f"{pid}/corpus/{name}"]
+            v["count"] += 1
+            v["first"].append({"index": None, "what": f"hunt/{pid}/{name}.py exits 1 (violation present): {what}", "detail": {"script": f"hunt/{pid}/{name}.py", "output_tail": tail}})
+            m["counters"]["corpus:present"] = m["counters"].get("corpus:present", 0) + 1
+        elif rc == 0:
+            m["counters"]["corpus:absent"] = m["counters"].get("corpus:absent", 0) + 1
+        else:
+            m["counters"][f"corpus:inconclusive:{rc}"] = m["counters"].get(f"corpus:inconclusive:{rc}", 0) + 1
+            m["inconclusive"]["corpus script did not finish normally"] = m["inconclusive"].get("corpus script did not finish normally", 0) + 1
     known = {k["key"]: k for k in load_known() if k["property"] == pid}
     known_seen, new_viol = [], []
     for key, v in sorted(m["violations"].items()):
